@@ -27,13 +27,13 @@ Definition VRound (x : sim) (p : pres) : V :=
   VT "r" [VN (taken x); VN (started x); VN (delivered x); VN (pulled x); VN (accepted x);
           VN (pres_code p); VBool (o_rreg x); VBool (o_wreg x); VBool (o_wake x); VBool (o_hreg x)].
 
-Fixpoint run_rounds (c : cfg) (x : sim) (rs : list round) : list V * sim :=
+Fixpoint run_rounds (c : cfg) (F : nat) (x : sim) (rs : list round) : list V * sim :=
   match rs with
   | [] => ([], x)
   | r :: rest =>
-      let '(x1, p) := poll c x r in
+      let '(x1, p) := poll c F x r in
       match p with
-      | PPend => let '(vs, xf) := run_rounds c x1 rest in (VRound x1 p :: vs, xf)
+      | PPend => let '(vs, xf) := run_rounds c F x1 rest in (VRound x1 p :: vs, xf)
       | _ => ([VRound x1 p], x1)
       end
   end.
@@ -48,9 +48,16 @@ Definition st_eqb (a b : st) : bool :=
      | SNone, SNone | SService, SService | SSendPayload, SSendPayload => true | _, _ => false end
   && match cpl a, cpl b with Some x, Some y => x =? y | None, None => true | _, _ => false end.
 
+(* fuel for the outer loops: more than the number of things that can happen in the scenario *)
+Definition bacts_len (b : option (list bact)) : nat := match b with Some l => length l | None => 0 end.
+Definition hact_size (a : hact) : nat := match a with HRespond _ b => S (S (bacts_len b)) | _ => 1%nat end.
+Definition fuel_of (k : case) : nat :=
+  (16 + 4 * length (k_items k)
+   + fold_right (fun h acc => fold_right (fun a n => hact_size a + n) acc h) 0 (k_handlers k))%nat.
+
 Definition run_C05 (k : case) : V :=
   let c := cfg_of k in
-  let '(vs, xf) := run_rounds c (sim_init (k_items k) (k_handlers k)) (k_rounds k) in
+  let '(vs, xf) := run_rounds c (fuel_of k) (sim_init (k_items k) (k_handlers k)) (k_rounds k) in
   let es := rev (trace xf) in
   VT "run" [VL vs;
             VBool (negb (bad xf));
